@@ -332,12 +332,41 @@ func Fqdn(s string) string {
 // form is lowercase and fully qualified. Only US-ASCII letters are affected. See
 // Section 6.2 in RFC 4034.
 func CanonicalName(s string) string {
-	return strings.Map(func(r rune) rune {
-		if r >= 'A' && r <= 'Z' {
-			r += 'a' - 'A'
+	return toLowerASCII(Fqdn(s))
+}
+
+// toLowerASCII lower-cases the ASCII letters of s and nothing else. Domain names
+// are octet strings: strings.ToLower and strings.Map treat them as UTF-8 text,
+// folding non-ASCII letters and replacing octets that are not valid UTF-8.
+func toLowerASCII(s string) string {
+	for i := 0; i < len(s); i++ {
+		if c := s[i]; c >= 'A' && c <= 'Z' {
+			b := []byte(s)
+			for ; i < len(b); i++ {
+				if c := b[i]; c >= 'A' && c <= 'Z' {
+					b[i] = c + ('a' - 'A')
+				}
+			}
+			return string(b)
 		}
-		return r
-	}, Fqdn(s))
+	}
+	return s
+}
+
+// toUpperASCII upper-cases the ASCII letters of s and nothing else.
+func toUpperASCII(s string) string {
+	for i := 0; i < len(s); i++ {
+		if c := s[i]; c >= 'a' && c <= 'z' {
+			b := []byte(s)
+			for ; i < len(b); i++ {
+				if c := b[i]; c >= 'a' && c <= 'z' {
+					b[i] = c - ('a' - 'A')
+				}
+			}
+			return string(b)
+		}
+	}
+	return s
 }
 
 // Copied from the official Go code.
